@@ -1,12 +1,19 @@
 mod common;
+mod c03;
 mod c04;
+mod c18;
+mod dec;
+mod lab;
 mod c14;
 
 fn main() {
     let argv: Vec<String> = std::env::args().collect();
     let args = common::Args::parse(&argv);
     let code = match args.prop.as_str() {
+        "lab" => lab::run(),
+        "c03" => c03::run(&args),
         "c04" => c04::run(&args),
+        "c18" => c18::run(&args),
         "c14" => c14::run(&args),
         other => {
             eprintln!("unknown property worker: {other}");
